@@ -992,6 +992,7 @@ _C = "urwid/widget/columns.py"
 _G = "urwid/widget/grid_flow.py"
 _F = "urwid/widget/frame.py"
 MUTANTS = [
+    Mut("twin-gridflow-display-focus-test-negated", "urwid/widget/grid_flow.py", "GridFlow._set_focus_from_display_widget", "        if position >= len(self.contents):", "        if not position < len(self.contents):", twin=True),
     Mut("twin-columns-cursor-move-pairs-local", "urwid/widget/columns.py", "Columns.move_cursor_to_coords", "        for i, (width, (w, _options)) in enumerate(zip(widths, self.contents)):", "        pairs = list(zip(widths, self.contents))\n        for i, (width, (w, _options)) in enumerate(pairs):", twin=True),
     Mut("gridflow-display-focus-unbounded", "urwid/widget/grid_flow.py", "GridFlow._set_focus_from_display_widget", "        if position >= len(self.contents):\n", "        if False:\n", "GUARD|widget.grid_flow.GridFlow._set_focus_from_display_widget|display focus stored without a range test"),
     Mut("gridflow-empty-forwards-cursor-move", "urwid/widget/grid_flow.py", "GridFlow.move_cursor_to_coords", "        if not hasattr(self._w, \"move_cursor_to_coords\"):\n            return False  # no cells: the display widget is a plain Divider\n", "", "OPTCALL|widget.grid_flow.GridFlow.move_cursor_to_coords|GridFlow.move_cursor_to_coords: optional method forwarded to the wrapped widget unguarded"),
